@@ -143,6 +143,7 @@ SAFE_BUILTINS = {
     "hash": hash,
     "frozenset": frozenset,
     "issubclass": issubclass,
+    "object": object,
     "vars": vars,
     "dir": dir,
     "callable": callable,
@@ -488,6 +489,13 @@ class HostInterp:
             if isinstance(obj, ast.AST):
                 return getattr(obj, e.attr)
             if isinstance(obj, self.host_types) and not e.attr.startswith("_"):
+                return getattr(obj, e.attr)
+            import types as _types
+            import typing as _typing
+
+            if (obj is _typing or obj is _types) and not e.attr.startswith("_"):
+                return getattr(obj, e.attr)
+            if isinstance(obj, type) and e.attr in ("__mro__", "__bases__", "__name__", "__qualname__", "__module__", "__base__"):
                 return getattr(obj, e.attr)
             if any(obj is t for t in (dict, list, str, tuple, set, frozenset)) and (not e.attr.startswith("_") or e.attr in ("__getitem__", "__setitem__", "__contains__")):
                 return getattr(obj, e.attr)
